@@ -273,8 +273,10 @@ def show(a):
 
 
 def close(x, y, rel=1e-9, ab=1e-12):
-    if isinstance(x, (bool, np.bool_)) or isinstance(y, (bool, np.bool_)):
+    if isinstance(x, (bool, np.bool_)) and isinstance(y, (bool, np.bool_)):
         return bool(x) == bool(y)
+    # a truth value on one side and a number on the other: compared as numbers (True counts as 1) - a numpy.bool_ where 2.0 is
+    # expected is a difference, not an agreement of truthiness
     try:
         x = float(x)
         y = float(y)
